@@ -1,5 +1,6 @@
 """C20 -- allocations: one per pipeline step (ghost allocation counter in the model of operator new)."""
-from checks import pipe_common
+from checks import pipe_common, when_common
+import core
 
 
 def plan(tier, seed, ctx):
@@ -8,17 +9,24 @@ def plan(tier, seed, ctx):
                 'calls must grow by at most 1 (allocations made inside callback bodies for their own futures/tasks are subtracted by snapshots).',
         'explanation': 'Real code as C02; the counter lives in rt/vp_rt.c (every operator new overload reaches vp_malloc; malloc/aligned_alloc are not called by the encoded code: '
                        'the externals list of the evidence shows it).',
-        'assumptions': ['combinators (WhenAll/WhenAny/Join) and Wait/Get/Strand/co_await allocation counts are decided by the C09/C10/C11/C07 checks where those exist; '
-                        'this check covers the per-pipeline-step part of C20'],
+        'assumptions': ['Wait/Get/Strand allocation counts are decided inside the C11/C07 harnesses; the combinator clause is decided here for the dynamic forms over 2 vs 3 inputs; co_await is not covered'],
     }
     sel = (lambda p: True) if tier != 'quick' else (lambda p: hash(p.describe()) % 2 == 0 or len(p.steps) > 1)
-    return pipe_common.make_plan('C20', tier, seed, ctx, ('eager', 'lazy'), meta, select=lambda p: (len(p.describe()) * 7 + len(p.steps)) % 2 == 0 or tier != 'quick')
+    plan_ = pipe_common.make_plan('C20', tier, seed, ctx, ('eager', 'lazy'), meta, select=lambda p: (len(p.describe()) * 7 + len(p.steps)) % 2 == 0 or tier != 'quick')
+    # combinator clause: the number of blocks does not depend on the number of inputs (dynamic form, 2 vs 3 plain futures)
+    plan_['modules']['when'] = [('harness/C10_api.cpp', 'prod17')] + when_common.LIB
+    plan_['module_opts']['when'] = {'nthreads': 1, 'heap': 4096, 'stack': 3072}
+    for comb, cn in enumerate(('WhenAny', 'WhenAll', 'Join')):
+        nm = 'c20_when_allocs_%d' % comb
+        plan_['queries'].append({'name': nm, 'module': 'when', 'main': ('void c20_when_allocs(uint32_t);\n' if comb == 0 else '') + 'void %s(void) { vp_spurious_cfg = 0; vp_init(); c20_when_allocs(%d); }\n' % (nm, comb),
+                                 'unwind': 8, 'timeout': 300, 'sample': '%s (dynamic form) over 2 and over 3 plain futures allocates the same, small number of blocks; everything is freed afterwards' % cn})
+    return plan_
 
 
 MANIFEST = {
     'level_text': 'For each enumerated pipeline the solver shows, for every payload, that Run/Schedule/MakeFuture/MakeTask/MakeContract and every Then*/Detach* step '
                   'perform at most one heap allocation regardless of callback signature, executor or unwrapping.',
-    'level_note': 'Covers the per-step clause of C20; the combinator/wait clauses are not claimed by this check. Trusted: clang -O1 IR, ir2c, rt allocation model, cbmc.',
+    'level_note': 'Covers the per-step clause of C20 and the combinator clause (WhenAny/WhenAll/Join, dynamic form, 2 vs 3 inputs allocate the same number of blocks); the wait/strand clauses live in the C11/C07 harnesses, co_await is not claimed. Trusted: clang -O1 IR, ir2c, rt allocation model, cbmc.',
     'technique': 'bounded model checking with a ghost allocation counter over generated client programs',
     'design_ref': 'DESIGN.md 4 C20',
 }
